@@ -71,7 +71,7 @@ def run_property(pid, tier):
             f["verifier_output"] = _verifier_excerpt(r.raw_err, f)
             failed.append(f)
         for fn in r.functions:
-            functions.append({k: fn.get(k) for k in ("path", "impl", "trait", "name", "lines", "sha256", "rewrites", "verified", "note")} | {"unit": unit, "backend": "verus"})
+            functions.append({k: fn.get(k) for k in ("path", "impl", "trait", "name", "lines", "sha256", "rewrites", "verified", "assumed_contract", "note")} | {"unit": unit, "backend": "verus"})
         types += [dict(t, unit=unit) for t in r.types]
         trusted += [dict(t, unit=unit) for t in r.trusted]
         hints_removed += [dict(h, unit=unit) for h in getattr(r, "hints_removed", [])]
